@@ -137,6 +137,24 @@ def run_stream(out, stream, cases):
                      "/%d-frames/%s" % (i.count(" ") + (1 if i.split(" / ")[0] else 0), i.split(" / ")[1]), impl_spec=spec_impl)
 
 
+def shared_remote_cases(rnd, n):
+    """several calls on ONE remote object (what SwitcherBreezeRemoteManager hands out): same request, different reported states"""
+    from aioswitcher.api.remotes import SwitcherBreezeRemote
+    cs = []
+    for _ in range(n):
+        base = gen_case(rnd, sub=31 if rnd.random() < .6 else None, upd=False)        # often a fully specified request: only the
+        irset = base["args"][0]                                                      # reported state differs between the calls
+        if rnd.random() < .6:
+            irset["OnOffType"] = 1
+            irset["IRWaveList"] += [{"Key": "on_" + w["Key"], "Para": "P", "HexCode": ("on_" + w["Key"]).upper().encode().hex()}
+                                    for w in irset["IRWaveList"] if w["Key"][:2] in ("aa", "ad", "aw", "ar", "ah") and rnd.random() < .7]
+        world.REMOTES[id(irset)] = SwitcherBreezeRemote(irset)
+        for j in range(rnd.randrange(2, 5)):
+            c = gen_case(rnd); c["args"] = [irset] + (base["args"][1:] if rnd.random() < .8 else c["args"][1:])
+            cs.append(c)
+    return cs
+
+
 def run(tier, rnd, out):
     corpus = lib.load_corpus("C16")
     if corpus: run_stream(out, "corpus", corpus)
@@ -147,6 +165,8 @@ def run(tier, rnd, out):
     run_stream(out, "every-request-subset-x-remote-kind-x-faulted-step", grid)
     grid = [gen_case(rnd, sub=sub, sep=sep, upd=upd) for sub in range(32) for sep in (False, True) for upd in (False, True) for _ in range(2 if tier == "quick" else 12)]
     run_stream(out, "every-request-subset-x-remote-kind", grid)
+    run_stream(out, "several-calls-on-one-remote-object", shared_remote_cases(rnd, 120 if tier == "quick" else 1500))
+    world.REMOTES.clear()
 
 
 def replay(rp, out): run_stream(out, rp.get("stream", "replay"), [rp["input"]])
